@@ -862,7 +862,7 @@ func c20Guards(c *Ctx) {
 		deleg := false
 		for _, a := range as {
 			for _, alt := range splitPhi(a) {
-				if strings.HasPrefix(alt, "call types.unmarshalHex({"+tn+"}") || strings.HasPrefix(alt, "call (*types.PublicKey).UnmarshalText(") {
+				if strings.HasPrefix(alt, "call types.unmarshalHex({"+tn+"}") || strings.HasPrefix(alt, "call (types.PublicKey).UnmarshalText(") {
 					deleg = true
 				}
 			}
